@@ -14,12 +14,17 @@
      cfit.py:48    Model_cfit.nll             -> cfit_call ;  :89 nll_grad_batch -> cfit_gradval
      cfit.py:292   ModelCfitExtended.nll      -> cfit_ext_call ; :343 -> cfit_ext_gradval
      custom.py:184 simple / simple_clip / simple_cfit
+     config_loader.py:538 _get_model / :664 get_fcn -> models_for_sets, fcn_parts (one model per data set)
+     multi_config.py:143 MultiConfig.get_fcn   -> combine (constraints of all configurations collected first)
      model.py:931  GaussianConstr.get_constrain_term -> gauss_term
      model.py:1341 CombineFCN.__call__        -> combine
    Quirks transcribed on purpose: alpha is applied three times on the FCN.__call__ path
    (FCN.__init__, Model.nll, BaseModel.nll) and once on the nll_grad path; Model_cfit.nll uses the
-   plain logarithm while its nll_grad_batch uses clip_log; simple_cfit reads the data-side
-   efficiency from the key "err_value" (so an "eff_value" column of the data is ignored there). *)
+   plain logarithm while its nll_grad_batch uses clip_log.
+   The model describes the code with the repairs proposed in /verif/build/fix_C06 (patch_1, patch_2, patch_4, patch_10):
+   simple_cfit reads the data-side efficiency from "eff_value" (the old code read the key "err_value", so an
+   "eff_value" column of the data was ignored: simple_cfit_call_old); a scalar bg_frac gives one cfit model PER DATA SET
+   (the old code built one model, and zip() dropped every further data set: models_for_sets_old). *)
 From Coq Require Import Reals List.
 From TFV Require Import Base.RBase Base.RSum.
 Import ListNotations.
@@ -169,9 +174,31 @@ Definition simple_clip_batched (bd bm : list (list R * list R)) : R :=
   rsum (map (fun b => - rdot (fst b) (map clip_log (snd b))
                       + rsum (fst b) * clip_log (rsum (map (fun m => rdot (fst m) (snd m)) bm))) bd).
 
-(* SimpleCFitModel: errv is data["err_value"] (sic), eg is phsp["eff_value"] *)
-Definition simple_cfit_call (fb : R) (W errv f b V eg g bm : list R) : R :=
+(* SimpleCFitModel: e is data["eff_value"], eg is phsp["eff_value"] *)
+Definition simple_cfit_call (fb : R) (W e f b V eg g bm : list R) : R :=
+  - rdot W (map ln (cfit_probs fb e f b V eg g bm)).
+
+(* the code before patch_4: the data efficiency e is not read; errv = data["err_value"] (1 when absent) is used instead *)
+Definition simple_cfit_call_old (fb : R) (W e errv f b V eg g bm : list R) : R :=
   - rdot W (map ln (cfit_probs fb errv f b V eg g bm)).
+
+(* ---- one likelihood model per data set (ConfigLoader._get_model / get_fcn) ---- *)
+
+(* a per-set configuration entry (bg_frac, bg_weight) is a list with one value per data set or a scalar for all of them;
+   n = number of data sets handed to get_fcn.  The list of models is built for THIS n (patch_2: n is part of the cache key) *)
+Definition models_for_sets {A : Type} (entry : A + list A) (n : nat) : list A :=
+  match entry with inl x => List.repeat x n | inr l => l end.
+
+(* cfit before patch_1: a scalar bg_frac gave ONE model whatever the number of data sets *)
+Definition models_for_sets_old {A : Type} (entry : A + list A) (n : nat) : list A :=
+  match entry with inl x => [x] | inr l => l end.
+
+(* get_fcn: zip(models, data sets) - one FCN per pair, the shorter list wins *)
+Fixpoint fcn_parts {A D : Type} (models : list A) (sets : list D) : list (A * D) :=
+  match models, sets with
+  | m :: ms, d :: ds => (m, d) :: fcn_parts ms ds
+  | _, _ => []
+  end.
 
 (* ---- Gaussian constraints and simultaneous fits ---- *)
 
